@@ -874,7 +874,7 @@ func sessExplore(c *core.Ctx, class string) {
 		{f4c1a, find("name", 0, iA, "n1+m"), f4c1a}, // a host whose name and model were learned and notified
 		// delete of a middle element: c1 (two addresses, the MAC looked up last) sits between the router and c2 in the MAC
 		// table and is purged while c2, seen again in between, stays
-		{f4c1a, find("f4", mC2, iB, ""), f4c1b, tOff, find("f4", mC2, iB, ""), tPurge},
+		{f4c1a, find("f6", mC2, iL1, ""), f4c1b, tOff, find("f6", mC2, iL1, ""), tPurge},
 	}
 	ex := &eseq.Explorer{NEvents: len(alpha), Depth: depth, Shard: c.Shard, NShards: c.NShards, Seeds: seeds}
 	if c.Deadline > 0 {
